@@ -123,7 +123,7 @@ Inductive c18obs :=
 | OClient (full : str) (class : N) (dup : bool) (unresolved : bool) (paths : list (str * list N))
     (* ClientProperties of the reflected object: flags, and (JSON name, proto field path) of every client property in order *)
 | OCodec (full : str) (class_empty class_fields : N)               (* codec: encode empty; worst over single-field messages *)
-| OHist (l : list (str * N)).                                      (* one shared cache, classes in call order *)
+| OHist (l : list (str * N * bool)).   (* one shared cache, in call order: class, and whether an Ok answer is the very schema a fresh cache answers *)
 Inductive c18case := C18Case (d : desc) (obs : list c18obs).
 
 (* classes as the harness numbers them: 0 ok, 1 err, 2 panic, 3 process death / timeout *)
@@ -183,16 +183,26 @@ Definition check_obs (D : desc) (o : c18obs) : bool :=
           end
       end
   | OHist l =>
-      (fix go (st : sset) (l : list (str * N)) : bool :=
+      (fix go (st : sset) (l : list (str * N * bool)) : bool :=
          match l with
          | [] => true
-         | (full, class) :: rest =>
+         | (full, class, same) :: rest =>
              match find_msg D full with
              | None => false
              | Some m => let '(st1, o) := cache_schema D (size D) st m in
                          (* a Go panic unwinds through Schema without the roll-back: what the cache holds
                             afterwards is not modelled, the comparison stops there *)
-                         N.eqb class (cls o) && (if N.eqb (cls o) 2 then true else go st1 rest)
+                         N.eqb class (cls o) &&
+                         (* cache transparency of values, observed: the answer of the shared cache against
+                            the answer of a fresh one (true when either does not answer) *)
+                         (match o with
+                          | Ok r => match snd (cache_schema D (size D) [] m) with
+                                    | Ok r' => Bool.eqb same (root_eqb r r')
+                                    | _ => same
+                                    end
+                          | _ => same
+                          end) &&
+                         (if N.eqb (cls o) 2 then true else go st1 rest)
              end
          end) [] l
   end.
@@ -240,10 +250,10 @@ Definition obs_model (D : desc) (o : c18obs) : list N :=
                   end
       end
   | OHist l =>
-      (fix go (st : sset) (l : list (str * N)) : list N :=
+      (fix go (st : sset) (l : list (str * N * bool)) : list N :=
          match l with
          | [] => []
-         | (full, _) :: rest =>
+         | (full, _, _) :: rest =>
              match find_msg D full with
              | None => [99%N]
              | Some m => let '(st1, o) := cache_schema D (size D) st m in cls o :: go st1 rest
